@@ -17,6 +17,7 @@ from ..harness import Section, DISCHARGED, FAILED
 from ..pyvc.frame import call_sites
 from ..pyvc.source import Program, module_ast
 from ..rtc import c18_type_hooks as drv
+from .lexeme import decoder_section
 
 VALUE_MODS = ["pvl.parser", "pvl.decoder"]
 FORBIDDEN = {"float", "Decimal", "Fraction", "Quantity", "Units", "PVLModule", "PVLGroup", "PVLObject",
@@ -83,7 +84,7 @@ def alloc_section():
 
 
 def run(ctx):
-    return [alloc_section()] + drv.sections(ctx)
+    return [alloc_section(), decoder_section(ctx)] + drv.sections(ctx)
 
 
 def replay(data):
